@@ -122,7 +122,7 @@ def make_graph(rows, refs):
     nodes["ValueRank"] = nodes["ValueRank"].astype("int64"); nodes["BrowseNameNamespace"] = nodes["BrowseNameNamespace"].astype("int64"); nodes["ns"] = nodes["ns"].astype("int64")
     rdf = pd.DataFrame({"Src": pd.Series([r[0] for r in refs], dtype="int64"), "Trg": pd.Series([r[1] for r in refs], dtype="int64"),
                         "ReferenceType": pd.Series([r[2] for r in refs], dtype="int64")})
-    return UAGraph(nodes=nodes, references=rdf, namespaces=["http://opcfoundation.org/UA/", "urn:a", "urn:b"], models=[])
+    return UAGraph(nodes=vlib.relabel(nodes, 1), references=vlib.relabel(rdf, 2), namespaces=["http://opcfoundation.org/UA/", "urn:a", "urn:b"], models=[])
 
 def impl_tables(rows, refs):
     try:
